@@ -317,11 +317,25 @@ macro_rules! range_row {
                         vcheck!(d.maybe_exhausted(), "C02/not_maybe_exhausted_at_end", "after decoding all {} symbols from {}", n, hexwords(&words));
                     }
                     6 => {
-                        ctx.label("dec:iterator_backend");
-                        let it = words.iter().map(|w| Ok::<$W, Infallible>(*w));
-                        let mut d = RangeDecoder::<$W, $S, _>::with_backend(FallibleIteratorReadWords::new(it)).unwrap_infallible();
-                        decode_all!(d, msg, $plist, "C02", "iterator backend");
-                        vcheck!(d.maybe_exhausted(), "C02/not_maybe_exhausted_at_end", "after decoding all {} symbols from {}", n, hexwords(&words));
+                        if (n + words.len()) % 2 == 0 {
+                            ctx.label("dec:iterator_backend");
+                            let it = words.iter().map(|w| Ok::<$W, Infallible>(*w));
+                            let mut d = RangeDecoder::<$W, $S, _>::with_backend(FallibleIteratorReadWords::new(it)).unwrap_infallible();
+                            decode_all!(d, msg, $plist, "C02", "iterator backend");
+                            vcheck!(d.maybe_exhausted(), "C02/not_maybe_exhausted_at_end", "after decoding all {} symbols from {}", n, hexwords(&words));
+                        } else {
+                            // an iterator that does not know its length (words arriving from a stream)
+                            ctx.label("dec:iterator_backend_of_unknown_length");
+                            let mut at = 0usize;
+                            let it = core::iter::from_fn(|| {
+                                let w = words.get(at).copied();
+                                at += 1;
+                                w.map(Ok::<$W, Infallible>)
+                            });
+                            let mut d = RangeDecoder::<$W, $S, _>::with_backend(FallibleIteratorReadWords::new(it)).unwrap_infallible();
+                            decode_all!(d, msg, $plist, "C02", "iterator backend of unknown length");
+                            vcheck!(d.maybe_exhausted(), "C02/not_maybe_exhausted_at_end", "after decoding all {} symbols from {} (iterator backend of unknown length)", n, hexwords(&words));
+                        }
                     }
                     _ => {
                         ctx.label("dec:temporary_encoder_decoder");
